@@ -777,7 +777,7 @@ impl Scenario for E3 {
     fn budget(&self, tier: &Tier) -> (u64, u64) {
         match tier {
             Tier::Quick => (800_000, 50),
-            Tier::Thorough => (50_000_000, 3000),
+            Tier::Thorough => (50_000_000, 1200),
         }
     }
 
